@@ -74,7 +74,9 @@ Definition dset_accepts (det : bool) (d : dset) (b : bool) : bool :=
   (if b then snd d else fst d) && (if det then negb (fst d && snd d) else true).
 
 Inductive case :=
-| CSer (h : heap) (v : hval) (prefix : bytes) (fuel : nat) (det : bool) (o : sobs)
+(* [base]: zero bytes put into the sink before the call; [prefix]: further bytes written before the
+   call, which the recorded output includes *)
+| CSer (h : heap) (v : hval) (base : N) (prefix : bytes) (fuel : nat) (det : bool) (o : sobs)
 | CBuild (h : heap) (v : hval) (prefix : bytes) (fuel : nat) (det : bool) (o : sobs)
 | CDetect (h : heap) (v : hval) (det : bool) (answer : bool)
 | CDeser (b : bytes) (o : dobs)
@@ -85,7 +87,7 @@ Inductive case :=
 
 Definition case_ok (c : case) : bool :=
   match c with
-  | CSer h v s fuel det o => rs_accepts det (h_serialize h fuel v s) o
+  | CSer h v base s fuel det o => rs_accepts det (h_serialize h base fuel v s) o
   | CBuild h v s fuel det o => rs_accepts det (h_build h fuel v s) o
   | CDetect h v det b => dset_accepts det (detect_top h v) b
   | CDeser b o =>
